@@ -31,6 +31,7 @@ F_NA = "C20-bloom-nonascii-token-boundary"
 F_LIT = "C20-literal-type-mismatch"
 F_GRP = "C20-null-key-grouped-index"
 F_TRUNC = "C20-bloom-writer-truncated-utf8-panic"
+F_TOK = "C20-bloom-writer-empty-tokens"
 STROPS = ("match", "ipinrange", "like", "matchop")
 OPS = {"=": "Ceq", "!=": "Cne", "<": "Clt", "<=": "Cle", ">": "Cgt", ">=": "Cge"}
 
@@ -194,6 +195,9 @@ def bloom_seg_tree(t, seg, corrected=False, vmode="repaired"):
             h = ob["hits"][seg] != 0
             if corrected and (ob.get("gram") or ob.get("notoken")) and ob["amatch"][seg]:
                 h = True
+            if corrected == "all" and ob["amatch"][seg]:
+                # finding C20-bloom-writer-empty-tokens: the writer did not split the values at all
+                h = True
             if corrected == "gram+nonascii" and ob["amatch"][seg] and (ob.get("nonascii") or [False] * (seg + 1))[seg]:
                 # finding C20-bloom-nonascii-token-boundary: the phrase matches a value that holds non-ASCII bytes; the writer's
                 # byte-level tokens of such a value need not be the tokens the row filter / the reader see
@@ -284,6 +288,16 @@ def bloom_stream(ck, cases):
             if ck.match_finding(F_TRUNC):
                 ck.known_finding(F_TRUNC, "BloomFilterWriter.GenBloomFilterData panics on a value that ends inside a multi-byte character")
                 verdicts["known_trunc"] = verdicts.get("known_trunc", 0) + 1
+                continue
+        if bad and t["in"].get("viabuilder") and t["schema"] and not t["err"] and \
+                any(ob["col"] == t["schema"][0] and ob["op"] == "match" for ob in t["atoms"]) and \
+                all(bloom_predict(bloom_seg_tree(t, sgi, corrected="all")) for sgi in range(t["segcnt"]) if t["match"][sgi]):
+            # signature of C20-bloom-writer-empty-tokens: the writer was built by IndexWriterBuilder.NewIndexWriters from the index
+            # relation of CREATE MEASUREMENT (no tokens option), the condition has a MATCHPHRASE on the file's column, and the pruned
+            # matching segments are exactly explained by counting those predicates as hits where a row matches
+            if ck.match_finding(F_TOK):
+                ck.known_finding(F_TOK, "a segment with a matching row is pruned: the bloom-filter writer a flush builds for an index without a tokens option does not split the values, the readers split the phrase by the default characters")
+                verdicts["known_tokens"] = verdicts.get("known_tokens", 0) + 1
                 continue
         if bad:
             explained = False
@@ -592,20 +606,24 @@ def blackbox(ck):
     if rc != 0 or not done:
         ck.broken.append("black box c20bb failed rc=%d: %s" % (rc, out[-300:]))
         return
-    known = viol = 0
+    known = viol = known_tok = 0
     for t in msts:
         for f in t.get("failures") or []:
             if f.get("litmix") and not f.get("err") and ck.match_finding(F_LIT):
                 ck.known_finding(F_LIT, "black box: the indexed query misses rows the full scan returns: a float key field is compared with a literal of integral value, which reaches the store as an integer literal")
                 known += 1
                 continue
+            if f.get("bloom") and not f.get("err") and ck.match_finding(F_TOK):
+                ck.known_finding(F_TOK, "black box: MATCHPHRASE over the bloom-filter indexed field misses rows the same query over its non-indexed twin returns")
+                known_tok += 1
+                continue
             viol += 1
             if viol <= 3:
                 ck.violation({"kind": "black-box", "what": "the query over the primary-key fields misses rows that satisfy the condition and that the same query over non-key twin fields returns",
                               "failure": f})
     ck.cov["black_box"] = {"measurements": [{k: t.get(k) for k in ("mst", "types", "rows", "files", "queries", "nontrivial", "brute_disagree", "retries")} for t in msts],
-                           "known_literal_type": known, "violations": viol,
-                           "rule": "20000 rows per measurement (3 fragments of 8192 rows per flush, 1-2 files), 60 condition trees each asked over key fields and over twin fields"}
+                           "known_literal_type": known, "known_bloom_tokens": known_tok, "violations": viol,
+                           "rule": "3 measurements x 20000 rows (key groups of the attached flush; one measurement with 1-2 distinct keys, i.e. key groups of several segments; one with a bloom-filter indexed text field and its non-indexed twin), 1-2 files, 60 condition trees each asked over key / indexed fields and over twin fields"}
 
 
 def _coq_atoms(tr):
@@ -1150,7 +1168,7 @@ def main(ck):
         r["rb"], r["norm"], r["null"], r["null_distinguishing"], r["mismatch_counts"], r["verdicts"]))
     ck.log(ck.notes[-1])
     # stale findings (open entries that no longer reproduce) are reported, not failed
-    for fid, key in ((F_GRAM, "known_gram"), (F_NA, "known_nonascii"), (F_TRUNC, "known_trunc")):
+    for fid, key in ((F_GRAM, "known_gram"), (F_NA, "known_nonascii"), (F_TRUNC, "known_trunc"), (F_TOK, "known_tokens")):
         if ck.match_finding(fid) and bcases and bverd.get(key, 0) == 0:
             ck.notes.append("open finding %s did not reproduce in this run (stale?)" % fid)
     for fid, key in ((F_RB, "known_rb"), (F_MUT, "known_mut"), (F_NULL, "known_null")):
